@@ -14,7 +14,7 @@ MANIFEST = {
     "category": "proof",
     "technique": "contracts on fidelity / NLL / KL / _single_basis_KL / deprecated_kwarg with the state accessors stubbed by opaque specs; bodies executed on symbolic states and targets; obligations by normal form (log atoms compared by argument) and z3",
     "text": "With psi / rho / normalisation of the model replaced by opaque contract values and symbolic complex targets, the real metric functions must return: pure fidelity |<t|psi>|^2/Z (phase-invariant, 1 against the model's own state); for mixed states exactly (sum_i sqrt|Re lambda_i|)^2 of the eigenvalues of target.rho/Z handed to numpy (code-level contract); NLL = -(1/M) sum log(P_b(s)/Z) on the no-bases and per-sample-bases paths; KL = mean over bases of sum_s T_b(s)[log T_b(s) - log Q_b(s)] for bases None / lists / dict targets / targets to be rotated, vanishing against the model's own state in every basis. Every path must return a python float. Additionally (front end G) NLL, KL and pure-state fidelity in the computational basis are executed end to end (no stubs) on states of symbolic size and equal their defining sums for every size of the space and of the data set.",
-    "note": "that the eigenvalue expression is the Uhlmann fidelity, lies in [0,1] and equals 1 against itself, and that KL >= 0 (Gibbs' inequality) are cited mathematics checked only by the bounded driver; probs_to_logits' epsilon clamp is treated as the identity (floats as reals); target entries in generic position (non-zero probabilities); n <= 2 quick, n <= 3 thorough; the shape-generic part (front end G) holds for all sizes and values, equalities decided by tensor-algebra normal form (sound, incomplete: a miss is undecided, never a violation without a replayed witness)",
+    "note": "that the eigenvalue expression is the Uhlmann fidelity and lies in [0,1] for mixed states is cited mathematics checked only by the bounded driver; KL >= 0 (Gibbs), KL(p|p) = 0, pure-state fidelity <= 1 and = 1 against itself are proved for every dimension in lean/Metrics.lean; probs_to_logits' epsilon clamp is treated as the identity (floats as reals); target entries in generic position (non-zero probabilities); n <= 2 quick, n <= 3 thorough; the shape-generic part (front end G) holds for all sizes and values, equalities decided by tensor-algebra normal form (sound, incomplete: a miss is undecided, never a violation without a replayed witness)",
 }
 EXPLANATION = "opaque model accessors (psi, rho, normalization, probability); symbolic complex targets; log atoms compared through their arguments"
 TRUSTED = ["(sum_i sqrt eig_i(sigma rho))^2 is the Uhlmann fidelity, in [0,1], 1 iff equal states (spectral fact, bounded driver only)",
@@ -38,6 +38,7 @@ def configs(tier):
                 out.append({"fn": "KL", "flavour": flav, "n": n, "mode": mode})
     out.append({"fn": "kwargs"})
     out.append({"generic": "every shape"})
+    out.append({"lean": "size-generic lemmas"})
     return out
 
 
@@ -151,6 +152,9 @@ def _is_plain_real(x):
 
 
 def run_config(ctx, cfg):
+    if cfg.get("lean"):
+        from contracts import leanlink
+        return leanlink.run(ctx, "C10")
     if cfg.get("generic"):
         from contracts import gsets
         return gsets.run(ctx, "C10")
